@@ -84,6 +84,10 @@ type File struct {
 	Path   []string
 	Length int64
 	Pad    bool
+	// Attr, when not empty, is the file's attr string as it goes into the
+	// metainfo (BEP 47: a set of flag letters; "p" among them marks padding).
+	// Empty: "p" for padding files, no attr key otherwise.
+	Attr string
 }
 
 // Spec describes one torrent.  Files == nil means single-file (Length is the
@@ -164,7 +168,9 @@ func (s *Spec) Metainfo() (file, info []byte) {
 				}
 				fd["path"], fd["path.utf-8"] = toList(lp), toList(f.Path)
 			}
-			if f.Pad {
+			if f.Attr != "" {
+				fd["attr"] = f.Attr
+			} else if f.Pad {
 				fd["attr"] = "p"
 			}
 			fl = append(fl, fd)
